@@ -430,8 +430,8 @@ theorem ensurePair_spec (L : Lang) (nodes : List AssocDecl) (s s' : St) (h : Inv
       · intro i hi
         rw [List.mem_singleton] at hi; subst hi
         exact ⟨y2, hy2, ey1, by rw [ey2]; exact hinst.right_type y hy⟩
-      · exact okCount_one _
-      · exact okCount_one _
+      · exact okCount_mono _ (List.length_pos_of_mem hx) hinst.left_count
+      · exact okCount_mono _ (List.length_pos_of_mem hy) hinst.right_count
       · exact nodup_single _
       · exact nodup_single _
       · intro l' hl' hc' i hi j hj' ⟨hil, hjr⟩
